@@ -107,19 +107,24 @@ CLAIMS = {
    text="Lean theorems for an ARBITRARY tick function (hence independent of rounding), any instance list, any track count: starts_gapless (first instance at "
         "0, each starts where the previous ended), total_is_sum, timeline_by_instance (settings at the instance's start, all note-ons at its start, all "
         "note-offs at start+length, nothing else), ons_offs_same_keys, rest_is_silent, release_before_strike (in the reference timeline, hence in every "
-        "track's order-preserving share, an instance's releases precede the next instance's strikes, also at equal ticks). Rounding clause: see level_note. "
+        "track's order-preserving share, an instance's releases precede the next instance's strikes, also at equal ticks). ROUNDING CLAUSE, proved over Q about the exact soft-float model of Go's arithmetic (Crd/Props/C02Float.lean, Mathlib tactics in "
+        "the proof module only): instance_length_is_nearest - for every list of n valid fractions and any common denominator D with N/D = 960*v exactly "
+        "(numOver_is_exact), if 4(n+4)N < 2^52 the length is floor(960v + 1/2), or one less only at an exact half (each operation = one rounding to 53 bits, "
+        "relative error <= 2^-53; n+4 roundings; a value nearer to N/D than 1/(2D) rounds to its nearest integer); float_rounding_can_miss - without the "
+        "hypothesis the clause is FALSE of the code (concrete piece below 2^28 ticks, one tick off; kernel evaluation). "
         "Tie: 6,000 (140,000) adversarial duration lists through the real midix writer vs the exact soft-float model (bit-identical ticks), op histories, documents.",
-   note="ROUNDING CLAUSE: the model computes Go's float64 arithmetic exactly (soft-float on Nat/Int, tied bit-for-bit); the theorem that the result is a nearest "
-        "integer of 960*v on FloatSafe inputs is in Crd/Props/C02Float.lean when present, otherwise that clause rests on the tie only. Outside FloatSafe the "
-        "clause is false of the code (known finding D17).",
+   note="The soft-float model (positive doubles as m*2^e, round-to-nearest-even to 53 bits; no subnormals/overflow, which crd's operands cannot reach) is tied to "
+        "Go's float64 bit-for-bit by the `ticks` stream. Outside the hypothesis the rounding clause is false of the code: known finding D17 (proved, and replayed "
+        "on the binary).",
    technique="Lean 4 proof: invariant/refinement by induction for any tick function; exact soft-float model of Go's arithmetic tied bit-for-bit", ref="6 (C02)"),
  'C07': dict(
    text="Lean theorems: first_instance_states_all (tempo, meter, key signature of the first instance or the defaults 100, 4/4, C, then its texts), "
         "later_instance_exactly_its_settings, text_calls, settings_at_instance_start (the setting events of the whole timeline are, instance by instance, that "
         "instance's settings stamped with its start tick, for any list; on chords and on rests alike), flags_override_first_instance, payloads: meter "
         "[n, log2 d, 8, 8] for every n and power-of-two d < 256, key signature sf/mi = conventional signature (C13 spec) for all 28 keys, text/lyric/marker = "
-        "exact UTF-8 bytes, tempo = 3 big-endian bytes of gomidi's value, which equals round-half-up(60,000,000/bpm) for every bpm in 4..1000 (kernel "
-        "evaluation of the float model; partial), dynamics_monotone, velocity_persists. Tie: tempo payloads for 2,000 (40,000) bpm values through gomidi; "
+        "exact UTF-8 bytes, tempo: tempo_value (Crd/Props/C07Float.lean, for EVERY bpm >= 1 the value is the nearest integer of 60,000,000/bpm - three roundings "
+        "of the soft-float model, error analysis over Q), tempo_fits / tempo_event (for every bpm >= 4 it fits and the event is FF 51 03 + 3 big-endian "
+        "bytes), dynamics_monotone, velocity_persists. Tie: tempo payloads for 2,000 (40,000) bpm values through gomidi; "
         "2,000 (30,000) documents with settings on every kind of instance and every flag subset through `crd write`, byte comparison.",
    note="Unrepresentable values (meter denominators that are not powers of two or > 255, bpm 1..3 or > 6e7) are silently altered by gomidi: known finding D12; "
         "the model reproduces them and the tie compares them.",
